@@ -47,6 +47,13 @@ POOL = {
     "d2/x.c": "int xb(void) { int u; return u; }\n",
     "b1.c": "// cppcheck-suppress-begin uninitvar\nint b1(void) { int u; return u; }\n// cppcheck-suppress-end uninitvar\nint b1b(void) { int w; return w; }\n",
 }
+# per-file project settings: p1.c is compiled with -DP1, p2.c without; both guard a finding with #ifdef P1. Sequences that
+# contain one of them are analysed through a compilation database (the FileSettings path of the executors), where the
+# defines of one entry must not reach the next entry
+PROJECT_DEFINES = {"p1.c": ["-DP1"], "p2.c": []}
+POOL["p1.c"] = "#ifdef P1\nint p1(void) { int a[2]; return a[2]; }\n#endif\nint p1b(int x) { return x / 0; }\n"
+POOL["p2.c"] = "#ifdef P1\nint p2(void) { int b[2]; return b[3]; }\n#endif\nint p2b(int x) { return x / 0; }\n"
+
 EXTRA = {"h.h": "#ifndef H_H\n#define H_H\n// cppcheck-suppress unreadVariable\nstatic int hdr(void) { int h[2]; h[4] = 0; int q; q = 2; return h[0]; }\n#endif\n"}
 
 OPTS = ["-q", "--template=" + projgen.TEMPLATE, "--inline-suppr", "--enable=style,warning,portability,information",
@@ -65,7 +72,13 @@ def tlc_sequences(pool, k):
 
 
 def run_seq(root, files, label, extra):
-    proj = {"opts": OPTS, "sources": files}
+    if any(f in PROJECT_DEFINES for f in files):
+        cc = "cc-%s.json" % vlib.digest([label, files])
+        with open(os.path.join(root, cc), "w") as f:
+            json.dump([{"directory": ".", "file": x, "command": " ".join(["cc"] + PROJECT_DEFINES.get(x, []) + ["-c", x])} for x in files], f)
+        proj = {"opts": OPTS, "sources": ["--project=" + cc]}
+    else:
+        proj = {"opts": OPTS, "sources": files}
     return runlayer.run_variant(proj, root, label, extra)
 
 
